@@ -294,7 +294,7 @@ class RangesAssembler:
             sol = cells[-1].solution
             cells = cells[:-1]
             for n, v in ists.items():
-                if n in sol:
+                if sol.get(n, sh.NONE) is not sh.NONE:  # NONE: never computed.
                     if isinstance(v, dict):
                         v = ists[n] = _get_indices_intersection(base, v)
                     i, j = v
